@@ -16,6 +16,7 @@ class Case:
     branch_part: str # branch part
     case_id: str     # case ID
     case_type: str   # one of the types: case/else/end
+    indent: int = 0  # indent of the clause keyword
 
 @dataclass
 class Branch:
@@ -92,6 +93,20 @@ class BranchingList:
                 return True
         return False
 
+    def close_by_indent(self, node):
+        """ Close branches that end by indentation at this node
+
+        :param node: Any non-empty node
+        """
+        while self.state:
+            indent = self.cases[self._get_case_id()].indent
+            if node.keyword=='case':
+                # clause keywords close only deeper branches
+                if node.indent>=indent: break
+            elif node.indent>indent:
+                break
+            self._close_branch()
+        
     def solve_case(self, node):
         """ Manage condition nodes
 
@@ -137,6 +152,7 @@ class BranchingList:
                 branch_part = branch_part,       # part on the branch
                 case_id     = case_id,           # case ID
                 case_type   = node.case_type,    # case type CASE/ELSE/END
+                indent      = node.indent,       # indent of the clause keyword
             )
         else:
             raise Exception(f"Invalid condition:", node.code)
